@@ -2,10 +2,10 @@
 # try_mutant.sh <patch.diff> <property> [quick|thorough] : apply a seeded change to /repo, run the
 # property's check, and undo it straight afterwards. Prints DETECTED / MISSED.
 set -uo pipefail
-P="$1"; PROP="$2"; TIER="${3:-quick}"
+P="$(realpath "$1")"; PROP="$2"; TIER="${3:-quick}"
 if [ -n "$(git -C /repo status --porcelain --untracked-files=no)" ]; then echo "/repo is dirty" >&2; exit 2; fi
 git -C /repo apply "$P" || { echo "apply failed" >&2; exit 2; }
-trap 'git -C /repo checkout -q -- .' EXIT
+trap 'git -C /repo checkout -q -- .; /verif/scripts/build.sh asan >/dev/null 2>&1' EXIT
 OUT=$(/verif/scripts/check.sh "$PROP" "$TIER" 2>&1); RC=$?
 echo "$OUT" | grep -E "^VIOLATION|^KNOWN|SUMMARY|HARNESS" | cut -c1-400 | head -12
 if [ $RC -eq 1 ]; then echo "DETECTED rc=1"; elif [ $RC -eq 0 ]; then echo "MISSED rc=0"; else echo "HARNESS-ERROR rc=$RC"; fi
